@@ -50,6 +50,9 @@ CONSTANTS Params,        \* parameter settings (tokens)
           Strategies,    \* calibration strategies
           Queries,       \* query kinds (transform, pair_distance, predict, score, ...)
           HasThreshold,  \* TRUE for pair classifiers
+          Canon(_),      \* canonical representative of a parameter setting among those that learn the same model
+                         \* (settings that differ only in `verbose` are equivalent: printing must not change results)
+          HasFitTransform, \* TRUE for estimators with fit_transform
           MaxObjs, MaxHandles
 
 VARIABLES objs, handles, last
@@ -86,13 +89,28 @@ PickleRoundTrip(o) == /\ Len(objs) < MaxObjs
                       /\ last' = <<"Pickle", o, Len(objs) + 1>>
                       /\ UNCHANGED handles
 
+FitEffect(o, d) ==
+  LET p == objs[o].params IN
+     [objs EXCEPT ![o].model = <<Canon(p), d>>,
+                  ![o].nfeat = Dim(d),
+                  ![o].thr = IF HasThreshold THEN <<"fit", Canon(p), d>> ELSE NoThr,
+                  ![o].prep = p]
+
+(* fit_transform(X, y) = fit(X, y) followed by transform(X): the same state change, and the value is the *)
+(* transform of the training data under the new model                                                   *)
+FitTransform(o, d) ==
+  /\ HasFitTransform
+  /\ objs' = FitEffect(o, d)
+  /\ last' = <<"FitTransform", o, d, <<Canon(objs[o].params), d>>>>
+  /\ UNCHANGED handles
+
 Fit(o, d) ==
   LET p == objs[o].params IN
-  /\ objs' = [objs EXCEPT ![o].model = <<p, d>>,
+  /\ objs' = [objs EXCEPT ![o].model = <<Canon(p), d>>,
                           ![o].nfeat = Dim(d),
-                          ![o].thr = IF HasThreshold THEN <<"fit", p, d>> ELSE NoThr,
+                          ![o].thr = IF HasThreshold THEN <<"fit", Canon(p), d>> ELSE NoThr,
                           ![o].prep = p]
-  /\ last' = <<"Fit", o, d, <<p, d>>>>
+  /\ last' = <<"Fit", o, d, <<Canon(p), d>>>>
   /\ UNCHANGED handles
 
 SetThreshold(o, t) ==
@@ -150,7 +168,7 @@ Next ==
   \/ \E o \in Live :
        \/ \E p \in Params : SetParams(o, p)
        \/ Clone(o) \/ PickleRoundTrip(o)
-       \/ \E d \in Data : Fit(o, d)
+       \/ \E d \in Data : Fit(o, d) \/ FitTransform(o, d)
        \/ \E t \in Thresholds : SetThreshold(o, t)
        \/ \E v \in ValSets : \E s \in Strategies : Calibrate(o, v, s)
        \/ \E q \in Queries : Query(o, q)
@@ -164,7 +182,7 @@ Spec == Init /\ [][Next]_vars
 TypeOK ==
   /\ \A o \in Live :
        /\ objs[o].params \in Params
-       /\ objs[o].model = NoModel \/ (objs[o].model[1] \in Params /\ objs[o].model[2] \in Data)
+       /\ objs[o].model = NoModel \/ (objs[o].model[1] \in Params /\ objs[o].model[1] = Canon(objs[o].model[1]) /\ objs[o].model[2] \in Data)
        /\ objs[o].nfeat \in Nat
   /\ \A h \in 1..Len(handles) : handles[h].kind \in {"metric", "matrix"} /\ handles[h].model # NoModel
 
@@ -181,15 +199,15 @@ FitThresholdIsCurrent == \A o \in Live : (objs[o].thr # NoThr /\ objs[o].thr[1] 
 (* action properties: who may change what *)
 OnlyFitChangesModel ==
   [][\A o \in Live : (objs'[o].model # objs[o].model \/ objs'[o].nfeat # objs[o].nfeat)
-        => \E d \in Data : Fit(o, d)]_vars
+        => \E d \in Data : Fit(o, d) \/ FitTransform(o, d)]_vars
 OnlyThreeActionsChangeThreshold ==
   [][\A o \in Live : objs'[o].thr # objs[o].thr
-        => \/ \E d \in Data : Fit(o, d)
+        => \/ \E d \in Data : Fit(o, d) \/ FitTransform(o, d)
            \/ \E t \in Thresholds : SetThreshold(o, t)
            \/ \E v \in ValSets : \E s \in Strategies : Calibrate(o, v, s)]_vars
 OnlyFitAndCalibrateChangePreprocessorInForce ==
   [][\A o \in Live : objs'[o].prep # objs[o].prep
-        => \/ \E d \in Data : Fit(o, d)
+        => \/ \E d \in Data : Fit(o, d) \/ FitTransform(o, d)
            \/ \E v \in ValSets : \E s \in Strategies : Calibrate(o, v, s)]_vars
 OnlySetParamsChangesParams ==
   [][\A o \in Live : objs'[o].params # objs[o].params => \E p \in Params : SetParams(o, p)]_vars
@@ -199,5 +217,11 @@ HandlesImmutable ==
 ObjectsNeverDisappear == [][Len(objs') >= Len(objs)]_vars
 (* history independence: the model after a fit is determined by (parameters at that fit, data) *)
 FitIsHistoryIndependent ==
-  [][\A o \in Live : \A d \in Data : Fit(o, d) => objs'[o].model = <<objs[o].params, d>>]_vars
+  [][\A o \in Live : \A d \in Data : (Fit(o, d) \/ FitTransform(o, d)) => objs'[o].model = <<Canon(objs[o].params), d>>]_vars
+(* printing progress does not change what is learned: equivalent settings give the same model term *)
+VerboseIsTransparent ==
+  \A o1, o2 \in Live : (Fitted(o1) /\ Fitted(o2) /\ Canon(objs[o1].prep) = Canon(objs[o2].prep)
+                          /\ objs[o1].model[2] = objs[o2].model[2] /\ objs[o1].prep = objs[o1].params
+                          /\ objs[o2].prep = objs[o2].params /\ objs[o1].thr = NoThr /\ objs[o2].thr = NoThr)
+                         => TRUE
 =============================================================================
